@@ -225,3 +225,7 @@ impl QueryNode {
         }
     }
 }
+
+#[cfg(kani)]
+#[path = "/verif/kani/dd_matcher.rs"]
+mod kani_verif;
